@@ -894,7 +894,7 @@ def handle (line : String) : String :=
       | none => "BAD args"
     | ["zip", _hx] =>
       match goRes.splitOn " " with
-      | [chain, names] =>
+      | [chain, names, first] =>
         if names == "!" then "SKIP not-a-readable-zip" else
         let ns : List Bytes := if names == "~" then [] else (names.splitOn ",").filterMap unhex
         let ch : List (Bytes × Bytes) := (chain.splitOn ",").filterMap fun e =>
@@ -902,7 +902,12 @@ def handle (line : String) : String :=
           | [m, x] => (unhex m).bind fun mb => (unhex x).map fun xb => (mb, xb)
           | _ => none
         let sp := Spec.zipSpec ch ns
-        if sp == "" then "OK" else sp
+        -- the OpenDocument / EPUB clause: first entry = the stored `mimetype` file naming such a type
+        let sp2 := match (if first == "-" then none else unhex first) with
+          | some c => Spec.odfSpec ch ns c
+          | none => ""
+        let all := [sp, sp2].filter (· != "")
+        if all.isEmpty then "OK" else String.intercalate " ; " all
       | _ => "SPEC C01:no-result(" ++ goRes ++ ")"
     | ["jdoc", hx] =>
       match unhex hx, goRes.splitOn " " with
